@@ -29,6 +29,10 @@ def scan(m, where):
     bad = []
     for eq in m.equations:
         for a in eq.atoms(M.Quantity, M.Variable):
+            if isinstance(a, M.Variable) and m._name_to_variable.get(a.name) is not a:
+                bad.append(('%s: variable %s in the equation for %s is not a variable of this model (an object of another '
+                            'model or a removed one)' % (where, a.name, eq.lhs), {'where': where}))
+                break
             u = getattr(a, 'units', None)
             if not isinstance(u, m.units.Unit):
                 bad.append(('%s: %s %r in equation for %s has units %r (%s), not a unit of the model\'s store'
@@ -207,7 +211,12 @@ def run_api_singular(seed):
     EXP = parser.SIMPLE_MATHML_TO_SYMPY_CLASSES['exp']
     bad = []
     models = []
-    for k in range(rng.randint(2, 3)):
+    nmodels = rng.randint(2, 3)
+    subseeds = [rng.randrange(10 ** 9) for _ in range(nmodels)]
+    if rng.random() < 0.4:
+        subseeds[1] = subseeds[0]      # two models with identical names and equations (a cached analysis must not be shared)
+    for k in range(nmodels):
+        rng = random.Random(subseeds[k])
         m = Model('m%d' % k)
         mV = m.units.add_unit('mV', 'volt / 1000')
         ms = m.units.add_unit('ms', 'second / 1000')
@@ -257,9 +266,14 @@ def run_api_singular(seed):
                 rhs = ghk * pattern(q(slope2, per_mV) * (V - q(offs2, mV)), rng.randrange(4)) * q(rng.choice([1, 0.3]), d)
             elif shape == 7:
                 # the singular point depends on a parameter that is excluded from the analysis (it stays symbolic)
-                E = m.add_variable('E%d' % j, mV)
-                m.add_equation(sp.Eq(E, q(offs, mV)))
-                excluded.append(E)
+                if rng.random() < 0.5:
+                    E = m.add_variable('E%d' % j, mV)
+                    m.add_equation(sp.Eq(E, q(offs, mV)))
+                    excluded.append(E)
+                else:
+                    # ... or on another state variable (symbolic without being excluded)
+                    E = m.add_variable('E%d' % j, mV, initial_value=offs)
+                    m.add_equation(sp.Eq(sp.Derivative(E, t), q(0.5, mV_per_ms)))
                 Ue = q(slope, per_mV) * (V - E) if rng.random() < 0.5 else q(slope, per_mV) * V - q(slope, per_mV) * E
                 rhs = q(rng.choice([3, 0.5]), d) * pattern(Ue, form)
             else:
